@@ -111,6 +111,9 @@ type opRec struct {
 	Wall    time.Duration
 	Foreign bool // returned an object that is not a harness instance
 	NilNil  bool
+	// a cancellable caller context (workload cancel); nil = context.Background()
+	Ctx       context.Context    `json:"-"`
+	CancelCtx context.CancelFunc `json:"-"`
 }
 
 func (o *opRec) String() string {
@@ -399,6 +402,9 @@ func (m *mon) do(c ocache.OCache, o *opRec) {
 		err     error
 	)
 	ctx := context.Background()
+	if o.Ctx != nil {
+		ctx = o.Ctx
+	}
 	switch o.Kind {
 	case "Get":
 		res, err = c.Get(ctx, o.ID)
